@@ -36,6 +36,7 @@ void KeyManager::register_session_with_material(const PeerId& peer_id,
                                                 std::chrono::steady_clock::time_point reference_time) {
     SessionKeyContext context{};
     context.shared_secret = shared_secret;
+    context.established = reference_time;
     context.last_rotation = reference_time;
     context.counter = 0;
 
@@ -65,28 +66,30 @@ std::optional<std::array<std::uint8_t, 32>> KeyManager::rotate_if_needed(const P
     }
 
     auto& context = it->second;
-    if (now - context.last_rotation < rotation_interval_) {
+    if (rotation_interval_ <= std::chrono::seconds::zero() || now < context.established) {
         return std::nullopt;
     }
 
-    context.counter += 1;
+    // Both ends of a session must arrive at the same key without exchanging anything, so the
+    // key of a rotation period depends only on the shared secret and the number of whole
+    // rotation intervals since the handshake - never on the instant this side happened to tick.
+    const auto epoch = static_cast<std::uint64_t>((now - context.established) / rotation_interval_);
+    if (epoch <= context.counter) {
+        return std::nullopt;
+    }
+
+    context.counter = epoch;
     context.last_rotation = now;
-    context.current_key = derive_key(context.shared_secret, context.counter, context.last_rotation);
+    context.current_key = derive_key(context.shared_secret, context.counter);
     return context.current_key;
 }
 
 std::array<std::uint8_t, 32> KeyManager::derive_key(const crypto::Key& shared_secret,
-                                                    std::uint64_t counter,
-                                                    std::chrono::steady_clock::time_point timestamp) {
+                                                    std::uint64_t counter) {
     std::array<std::uint8_t, 16> material{};
 
     for (int i = 0; i < 8; ++i) {
         material[7 - i] = static_cast<std::uint8_t>((counter >> (i * 8)) & 0xFFu);
-    }
-
-    const auto ticks = std::chrono::duration_cast<std::chrono::nanoseconds>(timestamp.time_since_epoch()).count();
-    for (int i = 0; i < 8; ++i) {
-        material[15 - i] = static_cast<std::uint8_t>((ticks >> (i * 8)) & 0xFFu);
     }
 
     const auto key_span = std::span<const std::uint8_t>(shared_secret.bytes);
